@@ -14,6 +14,16 @@ CHECKS = {
    note="Trusted: Lean kernel; gcc as executor; cdriver.py; export.py. The correspondence samples programs; within a program the single-step space is covered by byte-class representatives.",
    technique="Lean refinement theorem + model/binary correspondence",
    design="5/C06"),
+ "C02": dict(cat="proof",
+   text="Lean theorem C02_chunk_independent: for every machine, store and list of chunks (any number and sizes, empty chunks included, yields re-invoked from the reported cursor) the chunked session equals the session on the concatenated input - same state struct, hook log with visible outputs, codes at the same absolute offsets; feedFrom_eq_feedL shows the cursor-level feed loop is that fold for machines passing the decidable check leavesOK, evaluated on every exported machine. The binary is run under all 2^(n-1) chunkings of short inputs and compared with itself and with the model.",
+   note="Trusted: Lean kernel; the runtime model Rt.lean as a description of the emitted C, tied by C06/C02 correspondence runs on the compiled binary; gcc; cdriver.py; export.py.",
+   technique="Lean theorem on the runtime model + model/binary correspondence under chunkings",
+   design="5/C02"),
+ "C10": dict(cat="proof",
+   text="Lean theorems on the runtime model for every machine: OK implies the whole chunk was consumed, the cursor stays within the chunk, FAIL is absorbing in the failure state, resumption after yields is exact. The call-history predicates of the protocol (codes after terminal results, cursor after FAIL/DONE against the one-byte-per-call run, strict-done only postponing DONE) are evaluated on the compiled binary and the binary is compared with the model on every history.",
+   note="Trusted: as C02. Which call reports DONE/FAIL is decided by correspondence with the model plus the direct predicates on the binary, not by a theorem.",
+   technique="Lean protocol theorems on the runtime model + direct evaluation on binary call histories",
+   design="5/C10"),
 }
 
 def main():
